@@ -264,7 +264,7 @@ impl S {
             _ => None,
           };
           if let Some(g) = lost {
-            e2::log(&format!("status participant {pi}: endpoint {:02x}{:02x} lost", g[11], g[14]));
+            e2::log(&format!("status participant {pi}: endpoint {:02x}{:02x} (kind {:02x}) lost", g[11], g[14], g[15]));
             for w in self.ws.iter().filter(|w| w.p == pi) {
               self.unmatch_seen.insert((w.guid, g));
             }
@@ -739,7 +739,16 @@ fn body(thorough: bool) -> Check {
           let peers: Vec<Guid> = s
             .rs
             .iter()
-            .filter(|r| r.p != wp && r.dr.is_some() && (s.ws[wi].tl || !r.tl) && r.got.get(&wg).map_or(false, |g| !g.is_empty()))
+            // peers: readers that had matched it themselves (they reported the match, or data arrived at a
+            // reader that has no sibling whose receive cache it could have come through); for a deleted
+            // reader: the writers that reported a match with it
+            .filter(|r| {
+              let lone = !s.rs.iter().any(|o| o.p == r.p && o.guid != r.guid);
+              r.p != wp
+                && r.dr.is_some()
+                && (s.ws[wi].tl || !r.tl)
+                && (r.ever_matched.contains(&wg) || (lone && r.got.get(&wg).map_or(false, |g| !g.is_empty())))
+            })
             .map(|r| r.guid)
             .collect();
           for pg in peers {
@@ -759,7 +768,13 @@ fn body(thorough: bool) -> Check {
           let peers: Vec<Guid> = s
             .ws
             .iter()
-            .filter(|w| w.p != rp && w.dw.is_some() && (w.tl || !s.rs[ri].tl) && s.rs[ri].got.get(&w.guid).map_or(false, |g| !g.is_empty()))
+            .filter(|w| {
+              let r = &s.rs[ri];
+              w.p != rp
+                && w.dw.is_some()
+                && (w.tl || !r.tl)
+                && w.ever_matched.contains(&r.guid)
+            })
             .map(|w| w.guid)
             .collect();
           for pg in peers {
